@@ -28,6 +28,17 @@ def newOfLong (totalHours : Nat) : Period :=
   ⟨years, months, (totalDays * 10000 - 304369 * months - 3652425 * years) / 10000,
    totalHours - totalDays * 24, 0, 0⟩
 
+/-- is the duration (in units of 100 ms) one for which `newOfLong` transcribes the library? In the third
+    case of `period.NewOf` the months are `⌊days/30.4369⌋ - 12·⌊days/365.2425⌋` in SIGNED arithmetic: in a
+    narrow band just above a whole number of years (about 10^-6 of all long durations, first near 103 years
+    in the runs of the check) the difference is -1, the library builds a period with fields of mixed sign
+    and writes a text it refuses to read (`-P-272Y1M-30DT-21H`). The natural subtraction below would
+    silently give 0 there, so those durations are OUTSIDE the model (the driver answers `range`, the
+    theorems carry `monthsOk`); they lie inside the known finding `duration-ge-3277-days`. -/
+def monthsOk (n : Nat) : Bool :=
+  let totalDays := n / unitsPerHour / 24
+  totalDays < 3277 || 12 * (10000 * totalDays / 3652425) ≤ 10000 * totalDays / 304369
+
 /-- period.NewOf for a non-negative duration of `n` units of 100 ms (fields fit `int16` tenths for
     `n` below 3276 years) -/
 def newOf (n : Nat) : Period :=
